@@ -134,7 +134,24 @@ def print_desc(rng, tdecl, rules):
     return text
 
 
+BIGNUMS = ['2147483647', '2147483648', '2147483649', '2147483650', '2147483639', '2147483640', '4294967296', '4294967297',
+           '21474836470', '99999999999', '0000000000012', '2147483646']
+
+
+def big_numbers(rng, text):
+    """Replace one number of the text (or append a declaration) by a number around the limits of int."""
+    import re as _re
+    ms = list(_re.finditer(r'\d+', text))
+    n = rng.choice(BIGNUMS)
+    if ms and rng.random() < 0.7:
+        m = rng.choice(ms)
+        return text[:m.start()] + n + text[m.end():]
+    return 'TERM zq=%s;\n' % n + text
+
+
 def mutate_text(rng, text):
+    if rng.random() < 0.12:
+        return big_numbers(rng, text)
     b = bytearray(text.encode('latin-1'))
     for _ in range(rng.choice([1, 1, 2, 3])):
         op = rng.choice(['del', 'ins', 'sub', 'trunc', 'dup'])
